@@ -194,6 +194,9 @@ class Module(object):
             self.tree = ast.parse(src, filename=path)
         except SyntaxError as e:
             raise AnalysisError("unit %s does not parse: %s" % (path, e))
+        # behaviour-preserving normalisation (helpers that are not part of the reference tree are inlined)
+        from . import normalize
+        self.normalize_log = normalize.inline_new_helpers(self.tree, name)
         self.funcs = {}
         self.classes = {}
         self.imports = {}  # local name -> (module short name or None, original name)
